@@ -137,6 +137,8 @@ class Model:
             return True, FmtArgs(tmpl.b, arr.items)
         if callee in ("format", "alloc::fmt::format", "std::fmt::format") and isinstance(a[0], FmtArgs):
             return True, self.render(a[0])
+        if callee.startswith("must_use::<") and isinstance(a[0], Opaque):
+            return True, a[0]
         if callee.startswith("must_use::<") or callee in ("String::as_str", "<String as Deref>::deref", "<String as AsRef<str>>::as_ref"):
             return True, a[0]
         return False, None
@@ -154,7 +156,7 @@ class Model:
                 d = f.args[nxt]
                 nxt += 1
                 if not isinstance(d, Disp) or not isinstance(d.v, Name):
-                    raise Unsupported("format argument is not a cycle name")
+                    return Opaque("string")      # an error message or other text nobody decodes
                 parts.append(d.v)
                 k += 1
             elif c < 0x80:
